@@ -23,7 +23,8 @@ TECHNIQUE = 'exhaustive enumeration of alias maps x preferred-name subsets x ope
 RULE = ('all alias maps over aliases {I,_J,K} -> {Y,Z,X} U aliases U self (acyclic apart from self-maps) x histories of depth 1 over 8 write forms x 6 names, '
         'depth 2 on every map (thorough) / on chain and many-to-one maps (quick), each followed by all read forms, solve() and export; '
         'PREFERRED_NAMES: all subsets of size <= 2 (quick) / all subsets (thorough). states = alias configurations, transitions = operations through names, '
-        'export under 6 option sets for histories of length 0; aliases in solve(trace=...) on Alias+Tracer classes; traces = histories compared with the twin; non-trivial = history that goes through at least one alias')
+        'export under 6 option sets for histories of length 0; aliases in solve(trace=...) on Alias+Tracer classes; traces = histories compared with the twin; non-trivial = history that goes through at least one alias'
+        ' A preference given to one instance of a class declaring none; a subclass adding only a hook; keys that are not (name, period) pairs through an alias.')
 ASSUMPTIONS = [
     'alias names never equal another model variable\'s name (source marks that case undecided)',
     'ambiguous preferences may be rejected at construction or at export (ValueError either way)',
@@ -218,6 +219,33 @@ def run_history_case(case):
             finally:
                 if list(cls.PREFERRED_NAMES) != list(pref):
                     cls.PREFERRED_NAMES[:] = list(pref)
+    if not hist and not out:
+        # keys that are not (name, period) pairs: refused through an alias exactly as for the variable itself (same exception class, nothing changed)
+        for a in sorted(amap_effective(amap))[:2]:
+            c0 = resolve(amap, a)
+            for tail in ((), (LAB[sp][0], LAB[sp][1]), (LAB[sp][0], LAB[sp][1], LAB[sp][0])):
+                for mode in ('get', 'set'):
+                    def outcome(obj, name):
+                        try:
+                            if mode == 'get':
+                                obj[(name,) + tail]
+                            else:
+                                obj[(name,) + tail] = 1.5
+                            return 'accepted'
+                        except Exception as e:
+                            return type(e).__name__
+                    before_m, before_t = state(m), state(twin)
+                    om, ot = outcome(m, a), outcome(twin, c0)
+                    if om != ot or (ot != 'accepted' and (state(m) != before_m)):
+                        out.append(('malformed-key:%s' % mode, ot, om, 'the key %r through an alias does not behave like %r on the variable itself' % ((a,) + tail, (c0,) + tail)))
+                        break
+                    if ot == 'accepted' and mode == 'set' and state(m) != state(twin):
+                        out.append(('malformed-key:set:state', 'as the twin', 'differs', 'an accepted odd key wrote something else through the alias'))
+                        break
+                if out:
+                    break
+            if out:
+                break
     if not hist and not out and not pref:
         # the class declares no preference, one instance is given one (by assignment): its aliased export is the export of a class
         # that declares the same preference
